@@ -3,6 +3,25 @@ import Driver.Util
 namespace Driver.C11
 open Policies
 
+/-- one live iterator (op `open`): the model iterator, what `Pick` was asked, the replica list it works with,
+whether that list is guaranteed fresh (session keyspace table / token ring), the mutation epoch at `open` -/
+structure Slot where
+  id : Nat
+  it : Iter
+  reps : List Host
+  fresh : Bool
+  epoch : Nat
+  broken : Bool      -- the iterator panicked: no further use
+
+/-- a burst that was applied in op-line order and waits for its `settle` line -/
+structure Pending where
+  pre0 : List Host
+  pre1 : List Host
+  pre2 : List Host
+  preT : List Host
+  calls : List (String × Nat)
+  changedT : Bool
+
 /-- driver state: the policy under test (a bare round-robin based policy is `ta = false`),
 the host objects defined so far and the ids of the objects whose state is DOWN -/
 structure St where
@@ -12,8 +31,13 @@ structure St where
   down : List Nat
   evs : List (Ev × Host)   -- the notifier calls so far, NEWEST first
   hot : Bool               -- the counter was preset into the region of KF-C11-3 (≥ 2^63 − 4096)
+  slots : List Slot        -- live iterators
+  epoch : Nat              -- number of mutating ops so far
+  taint : List Nat         -- hosts with non-commuting concurrent calls whose outcome no sequential add/remove has settled
+  injSess : Bool           -- a `repl` line installed a table for the session keyspace (hook, not the code's path)
+  pending : Option Pending
 
-def init : St := ⟨false, TA.new (Pol.new .rr 0 0) false false false, [], [], [], false⟩
+def init : St := ⟨false, TA.new (Pol.new .rr 0 0) false false false, [], [], [], false, [], 0, [], false, none⟩
 
 def nat (s : String) : Nat := s.toNat?.getD 0
 def natList (s : String) : List Nat := if s == "-" then [] else (s.splitOn ",").map nat
@@ -41,19 +65,31 @@ def St.alias (s : St) : Bool :=
 
 def belowB (p : Pol) : Bool := p.layers.all (fun l => decide (p.ctr + 1 + l.length < 9223372036854775808))
 
+/-- `m` more picks stay below the counter bound (every pick of the run has `ctr + 1 + layer length < 2^63`) -/
+def belowM (p : Pol) (m : Nat) : Bool := p.layers.all (fun l => decide (p.ctr + m + l.length < 9223372036854775808))
+
+/-- the replica list of a query (after shuffling) and whether it is guaranteed FRESH: it comes from the token
+ring (rebuilt on every change of the policy's host list) or from the table of the SESSION keyspace (recomputed
+on every such change) — and no hook line has installed a table for the session keyspace -/
+def St.repsOf (s : St) (σ : List Host → List Host) (rk : Option (Nat × Nat)) : List Host × Bool :=
+  match rk with
+  | none => ([], true)
+  | some (ks, tok) => match s.t.replicasFor ks tok with
+    | .hosts l ft => (if ft && s.t.shuffle then σ l else l, !ft || (s.t.sessKs == some ks && !s.injSess))
+    | _ => ([], true)
+
 /-- the excluded conditions of `C11_history_exact_partial` (+ its assumptions), decided on the model state:
-alias, counter region of KF-C11-3, a ghost host (KF-C11-4), a replica table with a duplicate, a stale
-replica in the specified head (KF-C11-5) -/
-def St.offerExcluded (s : St) (σ : List Host → List Host) (rk : Option (Nat × Nat)) : Bool :=
-  let reps : List Host := match rk with
-    | none => []
-    | some (ks, tok) => match s.t.replicasFor ks tok with
-      | .hosts l ft => if ft && s.t.shuffle then σ l else l
-      | _ => []
+alias, counter region of KF-C11-3, a ghost host (KF-C11-4), a replica table with a duplicate, a host with
+unsettled non-commuting concurrent calls, a stale replica in the specified head (KF-C11-5: a replica the
+last call about which was `HostDown` while its state is up; a replica that is not known in a list that is
+not guaranteed fresh, i.e. the table of a keyspace other than the session's) -/
+def St.offerExcluded (s : St) (reps : List Host) (fresh : Bool) : Bool :=
   s.alias || s.hot || !belowB s.t.pol ||
   s.hosts.any (fun h => (s.status h).ghost) ||
+  !s.taint.isEmpty ||
   s.t.replicas.any (fun e => e.2.any (fun f => !nodupHosts f.2)) ||
-  (specHead s.t.pol.tier s.t.pol.maxTier s.up s.t.nonlocal reps).any (fun h => !(s.status h).expected true)
+  (specHead s.t.pol.tier s.t.pol.maxTier s.up s.t.nonlocal reps).any (fun h =>
+    (s.status h).last == some .hdown || (!(s.status h).known && !fresh))
 
 /-- the SPECIFICATION's answer to `offer`: the ids of the defined hosts the history expects, sorted -/
 def St.specOffer (s : St) : String :=
@@ -75,61 +111,202 @@ def parseTable (s : St) (ws : List String) : List (Nat × List Host) :=
     | [t, ids] => (nat t, (natList ids).filterMap s.host?)
     | _ => (0, []))
 
+def evOf (op : String) : Option Ev :=
+  if op == "add" then some .add else if op == "remove" then some .remove
+  else if op == "hup" then some .hup else if op == "hdown" then some .hdown else none
+
+/-- one notifier call on the model -/
+def St.call (s : St) (op : String) (h : Host) : St :=
+  let t' := if op == "add" then (if s.isTA then s.t.add h else { s.t with pol := s.t.pol.add h })
+    else if op == "remove" then (if s.isTA then s.t.remove h else { s.t with pol := s.t.pol.remove h })
+    else if op == "hup" then s.t.hostUp h
+    else if op == "hdown" then s.t.hostDown h
+    else s.t
+  { s with t := t', evs := match evOf op with | some e => (e, h) :: s.evs | none => s.evs }
+
+def showTable (tab : List (Nat × List Host)) : String :=
+  if tab.isEmpty then "empty" else " ".intercalate (tab.map (fun e => toString e.1 ++ ":" ++ showIds e.2))
+
+def parseRk (ks tok : String) : Option (Nat × Nat) := if tok == "-" || ks == "-" then none else some (nat ks, nat tok)
+def parsePerms (perms : String) : List (List Nat) := if perms == "-" then [] else (perms.splitOn ";").map natList
+
+/-- `key=ids` → ids -/
+def parseKV (w : String) : List Nat := match w.splitOn "=" with | [_, v] => natList v | _ => []
+
+def addType (c : String) : Bool := c == "add" || c == "hup"
+def remType (c : String) : Bool := c == "remove" || c == "hdown"
+
+/-- `settle`: the lists observed on the real code after a burst against the burst's calls. For every list: the
+hosts without non-commuting calls in the burst must be there iff the calls (in any order) leave them there;
+no host twice; the hosts that were there before and stay keep their order. -/
+def checkList (name : String) (conf : Nat → Bool) (model pre obs : List Host) : Option String :=
+  if !nodupHosts obs then some ("dup@" ++ name) else
+  match model.find? (fun h => !conf h.id && !obs.contains h) with
+  | some h => some ("lost:" ++ toString h.id ++ "@" ++ name)
+  | none =>
+    match obs.find? (fun h => !conf h.id && !model.contains h) with
+    | some h => some ("phantom:" ++ toString h.id ++ "@" ++ name)
+    | none =>
+      if obs.filter (fun h => !conf h.id && pre.contains h) == pre.filter (fun h => !conf h.id && obs.contains h) then none
+      else some ("reordered@" ++ name)
+
 /-- ops
   reset <rr|dc|rack> <ta 0|1> <localDC> <localRack> <shuffle> <nonlocal> <partitionerSet>
+  sessks <ks>                                      (right after reset) the session keyspace is <ks>
+  ksmeta <ks> <rf|local|none>                      keyspace metadata: SimpleStrategy rf / LocalStrategy / unknown keyspace
+  kschg <ks>                                       KeyspaceChanged(<ks>)
+  table <ks>                                       the replica table the policy holds for <ks> (none / empty / tok:ids ...)
   host <id> <addr> <dc> <rack> <tokens|->          define a HostInfo object (state UP)
   add|remove|hup|hdown <id>                        AddHost / RemoveHost / HostUp / HostDown → snapshot of the lists
-  state <id> <1|0>                                 setState(NodeUp|NodeDown)
-  repl <ks> <tok>:<ids> ...                        install the replica table of a keyspace
+  state <id> <1|0>                                 setState(NodeUp|NodeDown); ends the life of all iterators
+  repl <ks> <tok>:<ids> ...                        install the replica table of a keyspace (hook)
   pick <ks|-> <tok|-> <limit> <perm;perm;...|->    Pick + up to <limit> iterator calls → ids offered
   ctr <n>                                          the (fallback) policy has served n picks (VerifSetPickCount)
   offer <ks|-> <tok|-> <perm;...|->                SPEC-BACKED: Pick + full drain → sorted ids; the answer is the
                                                    specification's (hosts expected by the history), which
                                                    `C11_history_exact_partial` proves to be what the model offers;
-                                                   `excluded` (nothing done) under an excluded condition -/
+                                                   `excluded` (nothing done) under an excluded condition
+  open <slot> <ks|-> <tok|-> <perm;...|->          Pick; the iterator stays alive in <slot>
+  next <slot> <n>                                  up to n calls of the iterator → ids [end]
+  offerit <slot>                                   SPEC-BACKED: drain the rest of the iterator → sorted ids of EVERYTHING it
+                                                   offered since `open` (`C11_iterators_independent`: what a lone pick offers)
+  rotate <ks|-> <tok|-> <m>                        SPEC-BACKED: <m> successive Picks, each drained, nothing in between →
+                                                   `balanced` | `skewed:<tier>`: per tier, how often each host is the FIRST
+                                                   one offered from the tier after the replica phases (`tierBalanced`);
+                                                   `C11_rotation_balanced_partial` proves `balanced` for the model;
+                                                   `excluded` (nothing done) under an excluded condition of `offer` or
+                                                   the counter bound
+  burst <call>:<id> ...                            the calls run CONCURRENTLY (one goroutine each) → ok
+  settle L0=.. L1=.. L2=.. [T=..]                  SPEC-BACKED: the lists observed after the burst → ok | lost/phantom/dup/reordered -/
 def step (s : St) (ws : List String) : St × String :=
+  let bump (s : St) : St := { s with epoch := s.epoch + 1 }
   match ws with
   | ["reset", k, ta, ldc, lrack, sh, nl, ps] =>
     let kind := if k == "rr" then Kind.rr else if k == "dc" then Kind.dc else Kind.rack
-    ({ isTA := ta == "1", t := TA.new (Pol.new kind (nat ldc) (nat lrack)) (sh == "1") (nl == "1") (ta == "1" && ps == "1"),
-       hosts := [], down := [], evs := [], hot := false }, "ok")
+    ({ init with isTA := ta == "1", t := TA.new (Pol.new kind (nat ldc) (nat lrack)) (sh == "1") (nl == "1") (ta == "1" && ps == "1") }, "ok")
+  | ["sessks", ks] => (bump { s with t := { s.t with sessKs := some (nat ks) } }, "ok")
+  | ["ksmeta", ks, v] =>
+    let m : Option (Option Nat) := if v == "none" then none else if v == "local" then some none else some (some (nat v))
+    (bump { s with t := s.t.setMeta (nat ks) m }, "ok")
+  | ["kschg", ks] => (bump { s with t := if s.isTA then s.t.keyspaceChanged (nat ks) else s.t }, "ok")
+  | ["table", ks] =>
+    (s, if !s.isTA || !s.t.partSet then "none" else
+      match s.t.replicas.find? (fun e => e.1 == nat ks) with
+      | some e => showTable e.2
+      | none => "none")
   | ["ctr", n] =>
-    ({ s with t := { s.t with pol := s.t.pol.setCtr (nat n) },
-              hot := decide (nat n % 18446744073709551616 ≥ 9223372036854775808 - 4096) }, "ok")
+    let t' : TA := { s.t with pol := s.t.pol.setCtr (nat n) }
+    (bump { s with t := t', hot := decide (nat n % 18446744073709551616 ≥ 9223372036854775808 - 4096) }, "ok")
   | ["host", id, addr, dc, rack, toks] =>
     ({ s with hosts := ⟨nat id, nat addr, nat dc, nat rack, natList toks⟩ :: s.hosts.filter (fun h => h.id != nat id) }, "ok")
   | ["race", _] => (s, "ok")   -- thorough tier: concurrent run on the real code (no panic, no nil host); nothing to model
+  | ["offerit", slot] =>
+    match s.slots.find? (fun x => x.id == nat slot) with
+    | none => (s, "bad-op")
+    | some sl =>
+      if sl.broken then (s, "bad-op") else
+      if sl.epoch != s.epoch || s.offerExcluded sl.reps sl.fresh then (s, "excluded")
+      else
+        let r := s.t.nextN s.up sl.it 1000
+        let sl' := { sl with it := r.2.1, broken := r.2.2.2 == some Next.panic }
+        ({ s with t := r.1, slots := sl' :: s.slots.filter (fun x => x.id != sl.id) }, s.specOffer)
+  | "burst" :: calls =>
+    if s.alias then (s, "bad-op") else
+    let cs : List (String × Nat) := calls.map (fun w => match w.splitOn ":" with | [c, i] => (c, nat i) | _ => ("", 0))
+    if cs.any (fun c => evOf c.1 == none || (s.host? c.2).isNone) then (s, "bad-op") else
+    let p := s.t.pol
+    let s' := cs.foldl (fun (acc : St × Bool) c => match acc.1.host? c.2 with
+        | some h => let n := acc.1.call c.1 h
+                    (n, acc.2 || (n.t.hosts.map (·.id) != acc.1.t.hosts.map (·.id)))
+        | none => acc) (s, false)
+    (bump { s'.1 with pending := some ⟨p.l0, p.l1, p.l2, s.t.hosts, cs, s'.2⟩ }, "ok")
+  | "settle" :: kvs =>
+    match s.pending with
+    | none => (s, "bad-op")
+    | some pd =>
+      let ids (k : String) : List Nat := match kvs.find? (fun w => w.startsWith (k ++ "=")) with | some w => parseKV w | none => []
+      let allIds := ids "L0" ++ ids "L1" ++ ids "L2" ++ ids "T"
+      if allIds.any (fun i => (s.host? i).isNone) then (s, "bad-op") else
+      let hs (k : String) : List Host := (ids k).filterMap s.host?
+      let confF (i : Nat) : Bool := pd.calls.any (fun c => c.2 == i && addType c.1) && pd.calls.any (fun c => c.2 == i && remType c.1)
+      let confT (i : Nat) : Bool := pd.calls.any (fun c => c.2 == i && c.1 == "add") && pd.calls.any (fun c => c.2 == i && c.1 == "remove")
+      let p := s.t.pol
+      let wrongTier : Option String :=
+        ((hs "L0").find? (fun h => p.tier h != 0)).map (fun h => "phantom:" ++ toString h.id ++ "@L0") <|>
+        ((hs "L1").find? (fun h => p.tier h != 1 || p.kind == .rr)).map (fun h => "phantom:" ++ toString h.id ++ "@L1") <|>
+        ((hs "L2").find? (fun h => p.tier h != 2 || p.kind != .rack)).map (fun h => "phantom:" ++ toString h.id ++ "@L2")
+      let verdict : Option String :=
+        wrongTier <|>
+        checkList "L0" confF p.l0 pd.pre0 (hs "L0") <|>
+        checkList "L1" confF p.l1 pd.pre1 (hs "L1") <|>
+        checkList "L2" confF p.l2 pd.pre2 (hs "L2") <|>
+        (if s.isTA then checkList "T" confT s.t.hosts pd.preT (hs "T") else none)
+      match verdict with
+      | some v => ({ s with pending := none }, v)
+      | none =>
+        let t1 : TA := { s.t with pol := { p with l0 := hs "L0", l1 := hs "L1", l2 := hs "L2" },
+                                  hosts := if s.isTA then hs "T" else s.t.hosts }
+        let t2 := if s.isTA && pd.changedT then t1.refresh else t1
+        let newTaint := (pd.calls.map (·.2)).filter (fun i => confF i || confT i)
+        (bump { s with t := t2, pending := none, taint := newTaint ++ s.taint.filter (fun i => !newTaint.contains i) }, "ok")
   | [op, id] =>
     match s.host? (nat id) with
     | none => (s, "bad-op")
     | some h =>
-      let t' := if op == "add" then (if s.isTA then s.t.add h else { s.t with pol := s.t.pol.add h })
-        else if op == "remove" then (if s.isTA then s.t.remove h else { s.t with pol := s.t.pol.remove h })
-        else if op == "hup" then s.t.hostUp h
-        else if op == "hdown" then s.t.hostDown h
-        else s.t
-      let ev? : Option Ev := if op == "add" then some .add else if op == "remove" then some .remove
-        else if op == "hup" then some .hup else if op == "hdown" then some .hdown else none
-      let s' := { s with t := t', evs := match ev? with | some e => (e, h) :: s.evs | none => s.evs }
+      if evOf op == none then (s, "bad-op") else
+      let s' := bump (s.call op h)
+      let s' := if op == "add" || op == "remove" then { s' with taint := s'.taint.filter (· != h.id) } else s'
       (s', snapshot s')
   | ["state", id, v] =>
-    ({ s with down := if v == "1" then s.down.filter (· != nat id) else nat id :: s.down.filter (· != nat id) }, "ok")
+    if (s.host? (nat id)).isNone then (s, "bad-op") else
+    ({ s with down := if v == "1" then s.down.filter (· != nat id) else nat id :: s.down.filter (· != nat id), slots := [] }, "ok")
   | "repl" :: ks :: tab =>
-    ({ s with t := s.t.setReplicas (nat ks) (parseTable s tab) }, "ok")
+    let t' : TA := if s.t.partSet then s.t.setReplicas (nat ks) (parseTable s tab) else s.t
+    (bump { s with t := t', injSess := s.injSess || (s.t.partSet && s.t.sessKs == some (nat ks)) }, "ok")
   | ["pick", ks, tok, limit, perms] =>
-    let rk := if tok == "-" || ks == "-" then none else some (nat ks, nat tok)
-    let ps := if perms == "-" then [] else (perms.splitOn ";").map natList
-    let (t', r) := s.t.pick s.up (applyPerm ps) rk (nat limit)
+    let (t', r) := s.t.pick s.up (applyPerm (parsePerms perms)) (parseRk ks tok) (nat limit)
     ({ s with t := t' }, match r with
       | .seq l => showIds l
       | .crash => "crash:index-out-of-range")
   | ["offer", ks, tok, perms] =>
-    let rk := if tok == "-" || ks == "-" then none else some (nat ks, nat tok)
-    let ps := if perms == "-" then [] else (perms.splitOn ";").map natList
-    if s.offerExcluded (applyPerm ps) rk then (s, "excluded")
+    let σ := applyPerm (parsePerms perms)
+    let rk := parseRk ks tok
+    let rf := s.repsOf σ rk
+    if s.offerExcluded rf.1 rf.2 then (s, "excluded")
     else
-      let (t', _) := s.t.pick s.up (applyPerm ps) rk 1000
+      let (t', _) := s.t.pick s.up σ rk 1000
       ({ s with t := t' }, s.specOffer)
+  | ["rotate", ks, tok, ms] =>
+    let m := nat ms
+    let rk := parseRk ks tok
+    let rf := s.repsOf id rk
+    if s.offerExcluded rf.1 rf.2 || !belowM s.t.pol m then (s, "excluded")
+    else
+      let σs : Nat → List Host → List Host := fun _ l => l
+      let runs := TA.rotateRun s.t s.up σs rk 0 m
+      let s' := { s with t := Nat.repeat TA.drained m s.t }
+      if runs.any (fun r => r.2.crashed) then (s', "crash:index-out-of-range")
+      else (s', match s.t.rotateVerdict s.up σs rk m with
+        | none => "balanced"
+        | some t => "skewed:" ++ toString t)
+  | ["open", slot, ks, tok, perms] =>
+    let σ := applyPerm (parsePerms perms)
+    let rk := parseRk ks tok
+    let rf := s.repsOf σ rk
+    let (t', it) := s.t.openIter s.up σ rk
+    ({ s with t := t', slots := ⟨nat slot, it, rf.1, rf.2, s.epoch, false⟩ :: s.slots.filter (fun x => x.id != nat slot) }, "ok")
+  | ["next", slot, n] =>
+    match s.slots.find? (fun x => x.id == nat slot) with
+    | none => (s, "bad-op")
+    | some sl =>
+      if sl.broken then (s, "bad-op") else
+      let r := s.t.nextN s.up sl.it (nat n)
+      let sl' := { sl with it := r.2.1, broken := r.2.2.2 == some Next.panic }
+      let s' := { s with t := r.1, slots := sl' :: s.slots.filter (fun x => x.id != sl.id) }
+      (s', match r.2.2.2 with
+        | some Next.panic => "crash:index-out-of-range"
+        | some _ => showIds r.2.2.1 ++ " end"
+        | none => showIds r.2.2.1)
   | _ => (s, "bad-op")
 
 end Driver.C11
